@@ -1,4 +1,4 @@
-CONSTANTS Tables <- OpenTablesT Reqs <- OpenReqsT MaxOpens = 3
+CONSTANTS Tables <- OpenTablesT Reqs <- OpenReqsT MaxOpens = 2
 SPECIFICATION Spec
 INVARIANTS Isolated RecordsDisjoint VerifySelf
 PROPERTY ReopenStable
